@@ -286,3 +286,101 @@ def c08(prop, tier, seed, work):
 
 
 CHECKS["C08"] = c08
+
+
+# --------------------------------------------------------------------------- C18: the repository index
+
+INDEX_CFG = """SPECIFICATION %(spec)s
+CONSTANTS
+  Digs = %(digs)s
+  Tags = %(tags)s
+  Subjs = %(subjs)s
+  None = None
+  WithBoth = FALSE
+  MaxChildOpt = %(child)d
+%(extra)s
+CHECK_DEADLOCK FALSE
+"""
+INDEX_PROPS = """VIEW View
+INVARIANT NoPanic
+INVARIANT TagUnique
+INVARIANT SubjUnique
+INVARIANT UntaggedOnce
+INVARIANT LookupByDigest
+PROPERTY LastWriterWins
+PROPERTY RmTagKeepsDigest
+PROPERTY RmDigestRemovesAll"""
+
+
+def mset(prefix, n):
+    return "{" + ", ".join("%s%d" % (prefix, i) for i in range(1, n + 1)) + "}"
+
+
+def c18(prop, tier, seed, work):
+    t0 = time.time()
+    vh = vlib.build_harness(work)
+    quick = tier == "quick"
+    # (1) design level: closure of the implementation-shaped model, all C18 invariants and action properties
+    closures = [(2, 2, 1, 2), (2, 2, 2, 1)] if quick else [(2, 2, 1, 2), (2, 2, 2, 2), (3, 2, 1, 1)]
+    states = trans = 0
+    mc_notes = []
+    for (nd, nt, ns, ch) in closures:
+        cfg = INDEX_CFG % dict(spec="Spec", digs=mset("d", nd), tags=mset("t", nt), subjs=mset("s", ns), child=ch, extra=INDEX_PROPS)
+        res = vlib.tlc(work, "ix-%d%d%d%d" % (nd, nt, ns, ch), "IndexImpl", cfg, workers=vlib.WORKERS, timeout=1500)
+        vlib.tlc_ok(res, "IndexImpl closure")
+        states += res["distinct"]
+        trans += res["states"]
+        mc_notes.append("IndexImpl closure %d digests x %d tags x %d subjects, children option <= %d: %d distinct states, %d transitions, depth %d, %.0fs"
+                        % (nd, nt, ns, ch, res["distinct"], res["states"], res["depth"], res["wall"]))
+    # (2) behaviours of the model replayed on the real types.Index, (3) random sequences generated in Go
+    num, depth = (300, 40) if quick else (6000, 80)
+    nrand, rlen = (300, 60) if quick else (6000, 120)
+    progs = []
+    for gi, (nd, nt, ns, ch) in enumerate([(3, 3, 2, 2), (2, 2, 1, 2)]):
+        cfg = INDEX_CFG % dict(spec="GSpec", digs=mset("d", nd), tags=mset("t", nt), subjs=mset("s", ns), child=ch,
+                               extra="CONSTANT Depth = %d\nINVARIANT Emit" % depth)
+        res = vlib.tlc(work, "ixgen%d" % gi, "MCIndex", cfg, simulate="num=%d" % (num // 2), depth=depth + 2, seed=seed + gi, workers=1, timeout=900)
+        hs = vlib.tlc_prints(res["out"], "PROG")
+        if "Error:" in res["out"] or not hs:
+            raise Inconclusive("MCIndex generator failed:\n" + res["out"][-2000:])
+        for i, h in enumerate(hs):
+            progs.append({"id": "sim%d-%d" % (gi, i), "steps": h, "digs": ["d%d" % k for k in range(1, nd + 1)],
+                          "tags": ["t%d" % k for k in range(1, nt + 1)], "subjs": ["s%d" % k for k in range(1, ns + 1)]})
+    pf = work.path("ixprogs.ndjson")
+    vlib.write_programs(pf, progs)
+    tf = work.path("ixtrace.ndjson")
+    rc, out, dt = vlib.run([vh, "index", "-programs", pf, "-o", tf, "-random", str(nrand), "-len", str(rlen), "-seed", str(seed)], timeout=900)
+    cfg = "SPECIFICATION TraceSpec\nINVARIANT Report\nPOSTCONDITION Consumed\nCHECK_DEADLOCK FALSE\n"
+    res = vlib.tlc(work, "ixval", "TraceIndex", cfg, files={tf: "trace.ndjson"}, workers=1, timeout=1500, java_opts="-Xss64m")
+    vs = vlib.tlc_prints(res["out"], "VERDICT")
+    if "Model checking completed. No error has been found." not in res["out"] or len(vs) != 1:
+        raise Inconclusive("TraceIndex did not run to the end:\n" + res["out"][-3000:])
+    v = vs[0]
+    violations = []
+    allprogs = {p["id"]: p for p in progs}
+    for f in v["fails"]:
+        path = vlib.save_replay(prop, f["trace"], {"property": prop, "kind": "index", "failure": f, "seed": seed,
+                                                  "program": allprogs.get(f["trace"]), "random": {"n": nrand, "len": rlen}})
+        violations.append((path, f))
+    ntraces = len(progs) + nrand
+    distinct = len({json.dumps([st["op"] for st in p["steps"]]) for p in progs})
+    cov = {"states": states, "transitions": trans, "traces_validated_against_impl": ntraces,
+           "trace_events": v["stats"]["events"], "trace_events_checked": v["stats"]["checked"],
+           "drift_events": v["stats"]["drift"],
+           "evaluations": ntraces, "distinct_nontrivial": distinct,
+           "rule": "behaviours of IndexImpl (TLC simulation, distinct operation sequences counted) and Go-generated random sequences, each applied to one real types.Index; every sequence mixes AddDesc/RmDesc/AddChildren and a Copy; non-trivial = at least %d operations" % depth,
+           "samples": [[st["op"] for st in progs[0]["steps"][:10]]],
+           "model_checking": mc_notes, "exhaustive": False, "failures": [f for _, f in violations][:10],
+           "drift_note": "drift = the exact Manifests list of the real index differs from the list IndexImpl predicts (reported, not a verdict)"}
+    vlib.write_evidence(prop, tier, seed, "model_checking", cov, ASSUME_COMMON[:1], time.time() - t0, len(violations))
+    if v["stats"]["drift"]:
+        print("DRIFT property=%s: %d events where the real list differs from the IndexImpl prediction (model needs updating; not a violation)" % (prop, v["stats"]["drift"]))
+    if violations:
+        for path, f in violations[:5]:
+            print("VIOLATION property=%s replay=%s" % (prop, path))
+            log("  trace %s event %d (%s): clauses %s" % (f["trace"], f["i"], f["op"], ",".join(f["clauses"])))
+        return 1
+    return 0
+
+
+CHECKS["C18"] = c18
